@@ -142,7 +142,7 @@ Lemma rs_logout m s : RS m s -> RS m (initiate_logout_in_reply_to s None).
 Proof. intros H. unfold initiate_logout_in_reply_to, send_logout_in_reply_to. apply rs_send; [exact H | reflexivity | reflexivity]. Qed.
 
 Lemma srr_is_send : forall s b e s1 st, send_resend_request s b e = (s1, st) ->
-  exists body, s1 = send s T_RESENDREQ body /\ exists c, st = SResend None c e.
+  exists body, s1 = send s T_RESENDREQ body /\ exists c, st = SResend (Some []) c e.
 Proof.
   intros s b e s1 st H. unfold send_resend_request in H. cbv zeta in H.
   match type of H with context [if ?x <? e then _ else _] => destruct (x <? e) end;
